@@ -56,6 +56,7 @@ def plan(tier, seed):
     for i in range(0, len(dirs), 6):
         shards.append({"kind": "inputs", "dirs": dirs[i:i + 6]})
     shards.append({"kind": "matrix"})
+    shards.append({"kind": "features"})
     shards.append({"kind": "bundled"})
     return shards
 
@@ -287,6 +288,8 @@ def run_shard(shard) -> Result:
             run_program(corpus.item_protos(it), f"inputs:{d}", res, {"item": it})
     elif k == "matrix":
         run_program(corpus.matrix_protos(), "matrix", res, {"item": {"kind": "matrix"}})
+    elif k == "features":
+        run_program(corpus.feature_protos(), "features", res, {"item": {"kind": "features"}})
     elif k == "bundled":
         check_bundled(res)
     total = res.counters.get("programs", 0) + sum(v for kk, v in res.discards.items() if kk == "protoc-rejected-schema")
